@@ -1,5 +1,5 @@
 (** C07 - Worker loss: running tasks are restarted or failed per crash limit, nothing else. *)
-From HQ Require Import Base.Prelude Cluster.Types Cluster.Core Cluster.Reactor Cluster.Worker Cluster.Server Cluster.Sys Cluster.Monitors Cluster.ProofsJob Cluster.ProofsCore Cluster.ProofsMore.
+From HQ Require Import Base.Prelude Cluster.Types Cluster.Core Cluster.Reactor Cluster.Worker Cluster.Server Cluster.Sys Cluster.Monitors Cluster.ProofsJob Cluster.ProofsCore Cluster.ProofsMore Cluster.BijFinal Cluster.CrashFrame.
 From Coq Require Import ZArith.
 Local Open Scope N_scope.
 
@@ -19,5 +19,31 @@ Proof. exact crash_limit_rule. Qed.
 Theorem C07_failure_reasons : forall r, reason_is_failure r = true <-> r = 1 \/ r = 2.
 Proof. exact failure_reasons. Qed.
 
+(** In every reachable state of the system model and for EVERY operation (client requests, message
+    deliveries, scheduling rounds, worker losses, task ends, timers): a task that exists before and
+    after keeps its crash limit, and its crash counter is unchanged - unless the operation is the
+    loss of a worker for a failure reason and the task was running (single- or multi-node): then it
+    grows by exactly one.  In particular tasks that were only assigned, prefilled or being retracted
+    on the lost worker are rescheduled without penalty, and a stop / idle timeout / time limit of
+    the worker never counts. *)
+Theorem C07_crash_counter_rule : forall ops o reserve maxfill s outs s' outs',
+  Forall op_wf ops -> run (init_sys reserve maxfill) ops = Ok (s, outs) -> step s o = Ok (s', outs') ->
+  forall id t t', find_task (c_tasks (s_core s)) id = Some t -> find_task (c_tasks (s_core s')) id = Some t' ->
+    t_climit t' = t_climit t /\
+    (t_crash t' = t_crash t \/
+     (t_crash t' = t_crash t + 1
+      /\ (match o with OpLost _ reason _ _ _ => reason_is_failure reason | _ => false end) = true
+      /\ ((exists w rv, t_state t = Running w rv) \/ (exists ws, t_state t = RunningMN ws)))).
+Proof. exact crash_counter_rule. Qed.
+
+(** The rule fires on a concrete history (a running task, its worker lost with ConnectionLost). *)
+Theorem C07_crash_counter_example : Forall op_wf crash_ops /\ exists s outs s' outs' t t',
+  run (init_sys 0 2) crash_ops = Ok (s, outs) /\ step s crash_last = Ok (s', outs') /\
+  find_task (c_tasks (s_core s)) (1, 0) = Some t /\ find_task (c_tasks (s_core s')) (1, 0) = Some t' /\
+  t_state t = Running 1 0 /\ t_crash t = 0 /\ t_crash t' = 1.
+Proof. exact crash_example. Qed.
+
+Print Assumptions C07_crash_counter_rule.
+Print Assumptions C07_crash_counter_example.
 Print Assumptions C07_crash_limit_rule.
 Print Assumptions C07_failure_reasons.
